@@ -159,9 +159,17 @@ class Interp:
             self.runs.append("read")
         elif kind == "kemeny":
             fd, fs = self.fresh()
-            c = lib.mk_ranking(op["cand"])
+            univ_now = oracle.universe(self.raw)
+            as_int = bool(univ_now) and all(isinstance(e, int) for e in univ_now)
+            cand = [[(int(x) if as_int and isinstance(x, str) and x.isdecimal() else x) for x in b_] for b_ in op["cand"]]
+            # elements removed by an earlier user mutation are dropped from the candidate, new ones cannot appear
+            cand = [b2 for b2 in ([x for x in b_ if x in set(univ_now)] for b_ in cand) if b2]
+            missing = [e for e in univ_now if e not in {x for b_ in cand for x in b_}]
+            if missing:
+                cand.append(missing)
+            c = lib.mk_ranking(cand)
             a = lib.KemenyComputingFactory(self.s).get_kemeny_score(c, self.d)
-            b = lib.KemenyComputingFactory(fs).get_kemeny_score(lib.mk_ranking(op["cand"]), fd)
+            b = lib.KemenyComputingFactory(fs).get_kemeny_score(lib.mk_ranking(cand), fd)
             if a != b:
                 raise Violation("get_kemeny_score on shared objects %r, on fresh copies %r" % (a, b))
             self.runs.append("read")
@@ -190,7 +198,9 @@ class Interp:
                 if not new:
                     return
                 self.d.remove_elements({lib.Element(e)})
-            self.raw = new
+            # the names that remain may all be integer-like now: the dataset then holds ints (C16), and so must the
+            # raw data used for fresh copies and candidates
+            self.raw = lib.normalized(new)
             self.mutated = True
             self.d.name = "shared"
             self.snap0 = snapshot(self.d, self.s)
